@@ -82,9 +82,9 @@ def theorems_of(module):
         if m and ns and ns[-1] == m.group(1):
             ns.pop()
             continue
-        m = re.match(r"\s*(?:private\s+|protected\s+)?(?:theorem|lemma)\s+(\S+)", l)
-        if m:
-            names.append(".".join(ns + [m.group(1)]))
+        m = re.match(r"\s*(private\s+)?(?:protected\s+)?(?:theorem|lemma)\s+(\S+)", l)
+        if m and not m.group(1):      # private helpers are audited through the theorems that use them
+            names.append(".".join(ns + [m.group(2)]))
         if re.match(r"\s*example\b", l):
             examples += 1
     return names, examples
